@@ -35,6 +35,11 @@ pub enum Atom {
     Boxed(u8),
     /// `via_ref(*boxed(m))`: memoized fn taking a MemoRef parameter
     ViaRef(u8),
+    /// iterate a second tracked field, a map of plain values (no sources behind it: its
+    /// tracked mutations are the only thing that advances the epoch)
+    Tags,
+    /// tracked lookup of one key of that map
+    Tag(u8),
 }
 
 #[derive(Serialize, Deserialize, Clone, Debug, PartialEq, Eq, Hash)]
@@ -92,6 +97,10 @@ pub enum Op {
     ClearRetain(u8),
     NeverGc(u8),
     Gc,
+    /// tracked mutation of the plain-value map: insert / overwrite
+    TagSet(u8, i64),
+    /// tracked mutation of the plain-value map: remove
+    TagRemove(u8),
 }
 
 #[derive(Serialize, Deserialize, Clone, Debug, PartialEq, Eq, Hash)]
@@ -154,7 +163,7 @@ impl Scenario {
     }
 }
 
-fn gen_atom(rng: &mut Rng, level: u8, n_cells: u8, stable: &[u8], w: &[u32; 12]) -> Atom {
+fn gen_atom(rng: &mut Rng, level: u8, n_cells: u8, stable: &[u8], w: &[u32; 14]) -> Atom {
     loop {
         let k = rng.below(n_cells as u64) as u8;
         match rng.weighted(w) {
@@ -189,11 +198,13 @@ fn gen_atom(rng: &mut Rng, level: u8, n_cells: u8, stable: &[u8], w: &[u32; 12])
                     return Atom::Boxed(rng.below(level as u64) as u8);
                 }
             }
-            _ => {
+            11 => {
                 if level > 0 {
                     return Atom::ViaRef(rng.below(level as u64) as u8);
                 }
             }
+            12 => return Atom::Tags,
+            _ => return Atom::Tag(rng.below(3) as u8),
         }
     }
 }
@@ -219,7 +230,7 @@ pub fn generate(seed: u64, scenario: Scenario) -> Case {
     stable.sort();
 
     // atom weights: a random subset is switched off per run (swarm testing)
-    let mut aw: [u32; 12] = [6, 3, 5, 7, 2, 3, 2, 1, 1, 3, 2, 2];
+    let mut aw: [u32; 14] = [6, 3, 5, 7, 2, 3, 2, 1, 1, 3, 2, 2, 2, 2];
     if matches!(scenario, Scenario::Gc | Scenario::GcSmall | Scenario::GcCross) {
         aw[9] += 5;
         aw[10] += 3;
@@ -266,19 +277,19 @@ pub fn generate(seed: u64, scenario: Scenario) -> Case {
     // ---- operation weights ----
     // order: Set Remove SetSingle RemoveSingle TouchMap CallNode CallLeaf CallLeafRef CallOwned
     //        CallBorrowed CallRows CallPick CallUsePick CallBoxed CallViaRef CallRaw InternTop
-    //        Lookup Retain ClearRetain NeverGc Gc Twin
-    let mut ow: [u32; 23] = match scenario {
+    //        Lookup Retain ClearRetain NeverGc Gc Twin TagSet TagRemove
+    let mut ow: [u32; 25] = match scenario {
         Scenario::General => [
-            14, 4, 8, 3, 2, 24, 4, 2, 2, 2, 3, 3, 4, 2, 2, 2, 1, 3, 1, 1, 1, 5, 0,
+            14, 4, 8, 3, 2, 24, 4, 2, 2, 2, 3, 3, 4, 2, 2, 2, 1, 3, 1, 1, 1, 5, 0, 6, 2,
         ],
         Scenario::GcCross => [
-            12, 2, 10, 2, 1, 4, 1, 0, 0, 0, 6, 16, 0, 2, 2, 2, 1, 14, 3, 2, 1, 14, 0,
+            12, 2, 10, 2, 1, 4, 1, 0, 0, 0, 6, 16, 0, 2, 2, 2, 1, 14, 3, 2, 1, 14, 0, 1, 0,
         ],
         Scenario::Gc | Scenario::GcSmall => [
-            10, 3, 5, 2, 1, 12, 2, 1, 1, 1, 5, 8, 9, 4, 4, 4, 2, 8, 4, 3, 2, 14, 0,
+            10, 3, 5, 2, 1, 12, 2, 1, 1, 1, 5, 8, 9, 4, 4, 4, 2, 8, 4, 3, 2, 14, 0, 2, 1,
         ],
         Scenario::Twins => [
-            8, 1, 10, 4, 1, 3, 0, 0, 0, 0, 0, 0, 0, 0, 0, 0, 0, 0, 0, 0, 0, 5, 30,
+            8, 1, 10, 4, 1, 3, 0, 0, 0, 0, 0, 0, 0, 0, 0, 0, 0, 0, 0, 0, 0, 5, 30, 0, 0,
         ],
     };
     for (i, w) in ow.iter_mut().enumerate() {
@@ -325,6 +336,8 @@ pub fn generate(seed: u64, scenario: Scenario) -> Case {
             19 => Op::ClearRetain(rng.below(4) as u8),
             20 => Op::NeverGc(rng.below(4) as u8),
             21 => Op::Gc,
+            23 => Op::TagSet(rng.below(3) as u8, v),
+            24 => Op::TagRemove(rng.below(3) as u8),
             _ => match rng.below(4) {
                 0 => Op::CallTwinA(rng.below(2) as u8),
                 1 => Op::CallTwinB(rng.below(2) as u8),
